@@ -2129,6 +2129,12 @@ enhance(vbi_decoder *vbi,
 
 				row = es.inv_row + es.active_row;
 				count = (p->data >> 4) + 1;
+
+				/* An object can be invoked below the page, do
+				   not form a pointer outside pg->text[] then. */
+				if (row >= ROWS)
+					break;
+
 				acp = &pg->text[row * EXT_COLUMNS];
 
 				proportional = (p->data >> 0) & 1;
